@@ -410,7 +410,9 @@ CORPUS = dict(
     revisions=["L4,L5,L6,P,L0,P,L1,P,L2,P", "L3,L4,P,L0,P", "L1,L4,P,L3,P,L2,P", "L1,P,L0,P,P"],   # older after newer
     disk=["D0,L1,P,P", "D0,D2,D4,L1,L3,L5,P,P,P", "D4,L5,P,P,L6,D0,P,P", "D2,L3,P,P", "L1,P,D0,P,P", "D0,L6,P,L1,P,P",   # Process reads
           "D0,L1,T,P,T,P,L0,P",
-          "F0,R7,L1,P,P", "F0,R8,R9,L1,P,L6,P", "F0,R1,P,P", "F4,R5,P,F0,L6,L1,P,P", "F2,R10,L3,P,R3,P"],   # D73: Read of files                                                                             # from the path
+          "F0,R7,L1,P,P", "F0,R8,R9,L1,P,L6,P", "F0,R1,P,P", "F4,R5,P,F0,L6,L1,P,P", "F2,R10,L3,P,R3,P",    # D73: Read of files
+          "F0,R7,R1,P,P", "F4,F0,R8,R5,P,R1,P", "L1,P,F0,F4,R5,P,P", "L3,L1,P,P,D2,P,D0,P", "L5,P,F4,R1,P,F0,P"],   # failed Read, then
+          # a successful one from the same directory; an import that fails first and whose file becomes reachable later                                                                             # from the path
     typeerrs=["L6,P,L3,P,P", "L0,L7,P,L1,P,L2,P", "L4,P,L0,P,L3,P,L1,P,L2,P", "L5,L3,L0,P,L1,P,L2,P",   # Type.resolve
               "L8,L0,P,L1,P,L2,P", "L2,L4,L5,L3,P,L1,P,L0,P",                                           # error paths
               "L11,P,P,L9,P,L10,P,P", "L12,P,P,P", "L13,L9,L11,P,L10,P", "L10,L11,P,L12,P,P"],           # Typedef.resolve
@@ -469,10 +471,11 @@ def parse(line):
 
 
 def parse_for(c, line):
-    """parse; a file loaded with Modules.Read carries its full path as name while Process sorts the errors (the harness
-    cuts the directory off afterwards): for histories with R ops the errors are compared in string order"""
+    """parse; a file that is Read (by the caller or by Process itself) carries its full path as name while Process sorts
+    the errors (the harness cuts the directory off afterwards): for histories with files the errors are compared in
+    string order"""
     j = parse(line)
-    if j is not None and any(o.startswith("R") for o in c.ops):
+    if j is not None and any(o[0] in "DFR" for o in c.ops):
         for run in j["runs"]:
             pairs = sorted(zip(run["errors"], run["errpos"]))
             run["errors"], run["errpos"] = [e for e, _ in pairs], [q for _, q in pairs]
@@ -506,6 +509,23 @@ def split_history(ops, loads):
     return out
 
 
+def runs_of(c, j):
+    """split_history, plus: GetModule(name) on a module that is not loaded Reads name.yang from the search path, which
+    is a load of that text like any other -- from the next run on it counts as accepted"""
+    out, got = [], []
+    for r, (acc, op, disk) in enumerate(split_history(c.ops, j["loads"])):
+        acc = acc + [i for i in got if i not in acc]
+        out.append((acc, op, disk))
+        if op.startswith("G"):
+            name = bytes.fromhex(op[1:]).decode()
+            files = {s.rsplit(":", 2)[0] for s in j["loaded"][r]}
+            for i in disk:
+                t = c.texts[i]
+                if i not in acc and t["name"] in files and any(it["good"] and it["mod"] == name for it in t["items"]):
+                    got.append(i)
+    return out
+
+
 def only_reads_between(ops, p):
     """no load and no file offered between the (p-1)-th and the p-th run op"""
     runs = [k for k, op in enumerate(ops) if is_run(op)]
@@ -521,16 +541,18 @@ def stray_files(texts, accop, loaded):
 
 
 def batch_for(texts, accop, opts="-", loaded=()):
-    """the fresh set: exactly the accepted texts -- those loaded with Parse and those Process has read from the search
-    path by itself ([loaded] = source positions of the modules of the set after the run) -- then the same run op"""
+    """the fresh set: the texts that are legitimately available as files (and were not loaded explicitly) are offered
+    on its search path, exactly the accepted texts are loaded, then the same run op.  Whether Process then fetches a
+    file is for the fresh set to decide: an import that the history leaves unresolved although its file was
+    reachable differs from the batch."""
     acc, op, disk = accop
-    files = {s.rsplit(":", 2)[0] for s in loaded}
     extra = []
     for i in disk:
-        if i not in acc and i not in extra and texts[i]["name"] in files:
+        if i not in acc and i not in extra:
             extra.append(i)
-    sub = [texts[i] for i in acc + extra]
-    return process_line(sub, ["L%d" % k for k in range(len(sub))] + [op], opts)
+    sub = [texts[i] for i in extra + acc]
+    ops = ["D%d" % k for k in range(len(extra))] + ["L%d" % (len(extra) + k) for k in range(len(acc))] + [op]
+    return process_line(sub, ops, opts)
 
 
 def first_diff(a, b, path=""):
@@ -584,7 +606,7 @@ def metamorphic(res, cases, stats, max_report=3):
         parsed.append(j)
         if j is None:
             continue
-        for r, acc in enumerate(split_history(c.ops, j["loads"])):
+        for r, acc in enumerate(runs_of(c, j)):
             batch_lines.setdefault(batch_for(c.texts, acc, c.opts, j["loaded"][r]), None)
     keys = list(batch_lines)
     for k, o in zip(keys, run_go(keys)):
@@ -604,7 +626,7 @@ def metamorphic(res, cases, stats, max_report=3):
         nfail = sum(1 for l in j["loads"] if l != "ok")
         stats["loads_ok"] += len(j["loads"]) - nfail
         stats["loads_failed"] += nfail
-        accs = split_history(c.ops, j["loads"])
+        accs = runs_of(c, j)
         if nfail and len(accs) >= 2:
             stats["nontrivial"] += 1
         for p, acc in enumerate(accs):
